@@ -116,6 +116,7 @@ func rulesC18(w *World, r *Report) {
 	rulePrintFileDataHeader(w, r, "C18.R3")
 	if ve := need(w, r, "C18.R3", w.Cmd, "ViewCommand.execute"); ve != nil {
 		ruleUntilDefault(w, r, "C18.R3", ve, []*ssa.Function{fn(w.Cmd, "readWhisperFile")})
+		ruleParseWindowCheck(w, r, "C18.R3", "ViewCommand")
 		c, n := singleCall(ve, func(c *ssa.Call) bool { return c.Common().StaticCallee() == fn(w.Cmd, "printFileData") })
 		ok := n == 1
 		got := ""
@@ -224,6 +225,7 @@ func rulesC18(w *World, r *Report) {
 	ruleFilterByTimeRange(w, r, "C18.R4")
 	if vr := need(w, r, "C18.R4", w.Cmd, "ViewRawCommand.execute"); vr != nil {
 		ruleUntilDefault(w, r, "C18.R4", vr, []*ssa.Function{fn(w.Cmd, "filterPointsListByTimeRange")})
+		ruleParseWindowCheck(w, r, "C18.R4", "ViewRawCommand")
 		rd := callsTo(vr, fn(w.Cmd, "readWhisperFileRaw"))
 		okRd := len(rd) == 1
 		got := ""
@@ -468,6 +470,7 @@ func rulesC19(w *World, r *Report) {
 
 	r.Rule("C19.R3", "separators: ArchiveInfo.String joins step and retention with ':' and ArchiveInfoList.String joins elements with ','; ParseArchiveInfo splits on ':' and ParseArchiveInfoList on ','; ParseArchiveInfo fails iff step <= 0, retention <= 0 or retention % step != 0 and stores retention/step points", 5)
 	ruleListStringJoin(w, r, "C19.R3")
+	ruleLayoutOrderKept(w, r, "C19.R3", "ParseArchiveInfoList", "ParseArchiveInfo")
 	checkSep := func(name, sep string, isPrinter bool) {
 		f := need(w, r, "C19.R3", w.Lib, name)
 		if f == nil {
@@ -542,6 +545,7 @@ func rulesC19(w *World, r *Report) {
 
 	r.Rule("C19.R5", "overflow discipline: inside leadingInt's digit loop a rejecting test bounds the accumulator on every iteration before and after the multiply-add; ParseDuration rejects x > MaxInt32/unit before multiplying; both reject without guards", 3)
 	ruleLeadingIntRepresentatives(w, r, "C19.R5")
+	ruleParsedNumberNotNarrowed(w, r, "C19.R5")
 	if li := need(w, r, "C19.R5", w.Lib, "leadingInt"); li != nil {
 		// accumulator: integer phi multiplied by 10
 		var acc *ssa.Phi
